@@ -973,6 +973,53 @@ class Builder:
             return N("lit", e, s=cst["v"])
         return N("opaque", e, src=src(e), why="unresolved path")
 
+    def _table_alts(self, a, env):
+        """`TABLE.map(|(kw, v)| literal(kw).value(v))` with TABLE a constant array of the crate: one parser per row, the
+        closure's parameters replaced by the row's components (an array of parsers is what winnow's `alt` takes)."""
+        from .normalise import _subst_var
+
+        a = rx.peel(a)
+        if not (a.get("k") == "mcall" and a["m"] == "map" and len(a["args"]) == 1 and a["args"][0].get("k") == "closure" and len(a["args"][0]["params"]) == 1):
+            return None
+        base = rx.peel(a["recv"])
+        while base.get("k") == "mcall" and base["m"] in ("iter", "into_iter", "clone", "to_owned", "copied", "cloned") and not base["args"]:
+            base = rx.peel(base["recv"])
+        tab = None
+        if base.get("k") == "array":
+            tab = base
+        elif base.get("k") == "path":
+            tgt = rx.CONST_REG.get("::".join(base["segs"])) or rx.CONST_REG.get(base["segs"][-1])
+            tgt = rx.peel(tgt) if isinstance(tgt, dict) else None
+            if tgt is not None and tgt.get("k") == "ref":
+                tgt = rx.peel(tgt.get("e"))
+            if tgt is not None and tgt.get("k") == "array":
+                tab = tgt
+        if tab is None or not tab.get("elems"):
+            return None
+        clo = a["args"][0]
+        pat = clo["params"][0]
+        while isinstance(pat, dict) and pat.get("k") in ("typed", "ref", "paren"):
+            pat = pat.get("pat")
+        out = []
+        for row in tab["elems"]:
+            body = clo["body"]
+            r0 = rx.peel(row)
+            if pat.get("k") == "ident":
+                body = _subst_var(body, pat["name"], row)
+            elif pat.get("k") == "tuple" and r0.get("k") == "tuple" and len(pat["elems"]) == len(r0["elems"]):
+                for pe_, re_ in zip(pat["elems"], r0["elems"]):
+                    q = pe_
+                    while isinstance(q, dict) and q.get("k") in ("typed", "ref", "paren"):
+                        q = q.get("pat")
+                    if q.get("k") == "ident":
+                        body = _subst_var(body, q["name"], re_)
+                    elif q.get("k") != "wild":
+                        return None
+            else:
+                return None
+            out.append(self.pe(body, env))
+        return out
+
     def _range(self, e):
         """winnow Range argument -> (min, max) or None"""
         if e["k"] == "lit" and e["t"] == "int":
@@ -1024,6 +1071,11 @@ class Builder:
             if short == "alt":
                 if len(args) == 1 and args[0]["k"] == "tuple":
                     return N("alt", e, alts=[self.pe(a, env) for a in args[0]["elems"]])
+                if len(args) == 1 and args[0]["k"] == "array":
+                    return N("alt", e, alts=[self.pe(a, env) for a in args[0]["elems"]])
+                tm = self._table_alts(args[0], env) if len(args) == 1 else None
+                if tm is not None:
+                    return N("alt", e, alts=tm)
                 return N("opaque", e, src=src(e))
             if short == "cut_err":
                 return N("cut", e, p=self.pe(args[0], env))
